@@ -322,6 +322,12 @@ func (v *VM) exec() {
 				vs = append(vs[:len(vs)-1], tmp.data()...)
 			}
 			if s.value != nil {
+				if _, ok := s.value.(*sliceT); !ok {
+					// vs is a window into the VM stack: a script slice copies the items out
+					// of it, a host Object is given items of its own (it may keep them), as
+					// a native function is given arguments of its own
+					vs = append([]Value(nil), vs...)
+				}
 				v.stack[len(v.stack)-1] = s.Append(vs...)
 			} else {
 				vsCopy := make([]Value, len(vs))
